@@ -37,6 +37,13 @@ def run(ctx, ss):
     from .c05 import _as
     for f in (c03_3, c03_4, c03_5):
         ctx.guard("C04.5", lambda c, s_, f=f: _as(c, s_, f, "C04.5"), ss)
+    # ... and the table CDecay produces is REPORTED from the conjugated tokens of its own lines: each reported field is the
+    # accessor applied to this decay line (C01.4 / C16.9 shared), nothing on the way is memoised on a tree or a parser
+    from .c01 import details_fields
+    ctx.guard("C04.5", details_fields, ss, "C04.5")
+    from .shared import memo_discipline
+    ctx.guard("C04.5", memo_discipline, ss, "C04.5", ["dec/dec.py:DecFileParser.list_decay_modes", "dec/dec.py:DecFileParser._decay_mode_details", "dec/dec.py:DecFileParser.build_decay_chains",
+                                                    "decay/decay.py:DecayMode.charge_conjugate", "decay/decay.py:DaughtersDict.charge_conjugate"], "a conjugated table")
 
 
 def c04_1(ctx, ss):
